@@ -85,4 +85,16 @@ PROPS = {
         status="full for the genotype decoding and call mapping; bed_reader's parsing of .bim/.fam text is covered only differentially",
         assumptions=["bed_reader(count_A1=False) reports 00->0, 10->1, 11->2, 01->-127 (exercised differentially)"],
     ),
+    "C17": dict(
+        units=[],
+        props_files=["Props/C17.v"],
+        driver="c17",
+        rule="(a) duck-typed variants with 0..4 (thorough 0..8) alternate alleles, ploidy 1/2 (3,4 for rejection), missing alleles, "
+        "PL full / absent / '.' in all / some samples / single missing entries, through the real compute_laa_field / "
+        "compute_lpl_field vs the model and the specification; (b) generated VCFs with PL converted with and without local "
+        "alleles (all other arrays compared), files already carrying LAA/LPL, triploid rejection. distinct = distinct case "
+        "document; non-trivial = at least one alternate allele",
+        status="full for ploidy 2; ploidy 1: proved below the call's local genotype count, the fill cells are the known finding F5",
+        assumptions=["cyvcf2 reports PL as an int32 array with INT_MIN for missing and INT_MIN+1 for vector end"],
+    ),
 }
